@@ -117,6 +117,12 @@ def enumerated(tier):
                 yield dict(base, rounds=rounds, plain_create_between=plain, spell=spell)
     for sf in (0, 1, 3):
         yield dict(base, rounds=[dict(two_steps[0], formats=["xxh64"], n=True)], plain_create_between=True, spell="abs", sf_generation=sf)
+    # a nested child history: a file inside it is renamed to a name that, relative to the child, equals a path the parent records
+    nested_tree = {"notes.txt": "parent notes", "other.txt": "parent other", "reel1": {"draft.txt": "child draft", "clip.mov": "child clip", "sub": {"x.mov": "cx"}}}
+    for fm in (["md5"], ["xxh64"]):
+        for n in (False, True):
+            yield dict(base, tree=nested_tree, child="reel1", gens=[["md5"], ["md5"]], plain_create_between=True, spell="abs",
+                       rounds=[{"renames": [["reel1/draft.txt", "reel1/notes.txt"], ["reel1/sub/x.mov", "reel1/other.txt"]], "new": [], "formats": fm, "n": n, "newdir": False, "back": False}])
     yield dict(base, rounds=[{"renames": [["d/e.mov", "moved empty.mov"], [".h.mov", "d/.h2.mov"]], "new": [], "formats": ["xxh64"], "n": False, "newdir": False, "back": False}],
                plain_create_between=True, spell="abs", gens=[["md5"], ["md5", "sha1"]])
 
